@@ -109,10 +109,10 @@ template <> struct Codec<Pod16> {
     static Pod16 gen(vh::Rng& r, const GenCfg& c) { return Pod16{ Codec<double>::gen(r, c), Codec<int>::gen(r, c), Codec<int>::gen(r, c) }; }
     static std::string show(const Pod16& v, bool) { return podHex(v); }
 };
-// time_point travels as one 8-byte integer: time_t (whole seconds) in the code as it is.  The unit
-// is probed from the real packer once, so the correspondence stays byte-exact should the wire
-// format move to the full millisecond count (the loss of sub-second times is a finding of the
-// property mode, not of the correspondence).
+// time_point travels as one 8-byte integer: the int64 millisecond count (since fix e3efc3a5b;
+// time_t before).  The unit is probed from the real packer once so that the correspondence is
+// byte-exact on either encoding; a loss of sub-second times is found by the property mode
+// (generated decks with sub-second TSTEP, query end_ms / start_ms).
 inline bool timePointPackedAsMs() {
     static const bool ms = [] {
         Packer p; Ser s(p);
